@@ -274,3 +274,43 @@ func VK07dDeletedAttrClaim() {
 	got := c.AppendPermanodeAttrValues(nil, vPn, "a", time.Time{}, "")
 	vrt.Assert(len(got) == 0, "a deleted attribute claim no longer contributes to the attribute values (corpus)")
 }
+
+// K06a (C06): the corpus built incrementally (claims merged live in arrival order) equals
+// the corpus a restart builds (all claim rows appended while "building", then
+// restoreInvariants): same claim order, same attribute answers.
+func VK06aLiveVsLoaded1() { vLiveVsLoaded(false) }
+func VK06aLiveVsLoaded2() { vLiveVsLoaded(true) }
+
+func vLiveVsLoaded(two bool) {
+	cls := vMakeClaims(3, vKinds(two), vrt.Choice(len(vKinds(two))), true)
+	live := vCorpus()
+	vDeliver(live, cls)
+	loaded := vCorpus()
+	loaded.building = true
+	// rows are scanned in key order: claim|permanode|signer|date|... ; any order must do, use reverse arrival
+	for i := len(cls) - 1; i >= 0; i-- {
+		err := loaded.VerifMergeClaim(cls[i])
+		vrt.Assert(err == nil, "claim row merges while building")
+	}
+	for _, pm := range loaded.permanodes {
+		vrt.Assert(pm.restoreInvariants(loaded.keyId) == nil, "restoreInvariants succeeds")
+	}
+	loaded.building = false
+	a, b := live.permanodes[vPn].Claims, loaded.permanodes[vPn].Claims
+	vrt.Assert(len(a) == len(b), "same number of claims live and after a restart")
+	for i := 0; i < len(a) && i < len(b); i++ {
+		vrt.Assert(a[i].BlobRef == b[i].BlobRef, "claims are in the same (date) order live and after a restart")
+	}
+	var at time.Time
+	if vrt.Choice(2) == 1 {
+		at = time.Unix(int64(vrt.Range(0, 10)), 0)
+	}
+	filter := []string{"", "K1"}[vrt.Choice(2)]
+	va := live.AppendPermanodeAttrValues(nil, vPn, "a", at, filter)
+	vb := loaded.AppendPermanodeAttrValues(nil, vPn, "a", at, filter)
+	vrt.Assert(vSameStrings(va, vb), "attribute values are the same live and after a restart")
+	vrt.Assert(live.PermanodeAttrValue(vPn, "a", at, filter) == loaded.PermanodeAttrValue(vPn, "a", at, filter), "single attribute value is the same live and after a restart")
+	ta, oka := live.PermanodeModtime(vPn)
+	tb, okb := loaded.PermanodeModtime(vPn)
+	vrt.Assert(oka == okb && ta.Equal(tb), "permanode modtime is the same live and after a restart")
+}
